@@ -24,6 +24,35 @@ Fixpoint ops_eqb (a b : list op) : bool :=
   | _, _ => false
   end.
 
+(* Loop normal form. The translator unrolls a loop 0, 1 and 2 times; a real run may iterate more often. For a
+   flat trace made of whole sections ([RLock; RUnlock] or [WLock; WUnlock]) a run of more than two identical
+   consecutive sections is cut to two; any other trace is left as it is. *)
+Fixpoint sections (p : list op) : option (list bool) :=      (* true = read section, false = write section *)
+  match p with
+  | [] => Some []
+  | RLock :: RUnlock :: r => option_map (cons true) (sections r)
+  | WLock :: WUnlock :: r => option_map (cons false) (sections r)
+  | _ => None
+  end.
+Fixpoint cap2 (prev : option bool) (count : nat) (l : list bool) : list bool :=
+  match l with
+  | [] => []
+  | b :: r =>
+    match prev with
+    | Some a => if Bool.eqb a b
+                then (if Nat.leb 2 count then cap2 prev count r else b :: cap2 prev (S count) r)
+                else b :: cap2 (Some b) 1 r
+    | None => b :: cap2 (Some b) 1 r
+    end
+  end.
+Definition unsections (l : list bool) : list op :=
+  flat_map (fun b : bool => if b then [RLock; RUnlock] else [WLock; WUnlock]) l.
+Definition norm (p : list op) : list op :=
+  match sections p with
+  | Some l => unsections (cap2 None 0 l)
+  | None => p
+  end.
+
 Definition programs_of (name : string) : list (list op) :=
   map snd (filter (fun np => String.eqb (fst np) name) named_programs).
 
@@ -87,7 +116,7 @@ Inductive case :=
 
 Definition case_ok (c : case) : bool :=
   match c with
-  | CTrace name obs => existsb (ops_eqb obs) (programs_of name)
+  | CTrace name obs => existsb (ops_eqb (norm obs)) (map norm (programs_of name))
   | CReplay _ obs forced stalled =>
       if forced then Bool.eqb stalled (model_deadlocks obs) else implb stalled (model_deadlocks obs)
   | CSeq steps => seq_ok [] steps
@@ -108,16 +137,25 @@ Proof.
   destruct x, y; cbn in Hx; try discriminate; reflexivity.
 Qed.
 
-(* an accepted trace is literally one of the generated programs *)
+(* an accepted trace is, up to the loop normal form, one of the generated programs *)
 Lemma accepted_in (l : list (string * list op)) name obs :
-  existsb (ops_eqb obs) (map snd (filter (fun np => String.eqb (fst np) name) l)) = true -> In obs (map snd l).
+  existsb (ops_eqb (norm obs)) (map norm (map snd (filter (fun np => String.eqb (fst np) name) l))) = true ->
+  exists p, In p (map snd l) /\ norm p = norm obs.
 Proof.
-  intros H. apply existsb_exists in H. destruct H as [p [Hin Heq]]. apply ops_eqb_eq in Heq. subst p.
+  intros H. apply existsb_exists in H. destruct H as [q [Hin Heq]]. apply ops_eqb_eq in Heq. subst q.
+  apply in_map_iff in Hin. destruct Hin as [p [Hp Hin]]. exists p. split; [|exact Hp].
   apply in_map_iff in Hin. destruct Hin as [[n q] [Hq Hf]]. cbn [snd] in Hq. subst q.
-  apply filter_In in Hf. destruct Hf as [Hf _]. apply in_map_iff. exists (n, obs). split; [reflexivity|exact Hf].
+  apply filter_In in Hf. destruct Hf as [Hf _]. apply in_map_iff. exists (n, p). split; [reflexivity|exact Hf].
 Qed.
-Lemma ctrace_ok_in name obs : case_ok (CTrace name obs) = true -> In obs programs.
+Lemma ctrace_ok_in name obs : case_ok (CTrace name obs) = true -> exists p, In p programs /\ norm p = norm obs.
 Proof. exact (accepted_in named_programs name obs). Qed.
+
+Example norm_examples :
+  norm [RLock; RUnlock; RLock; RUnlock; RLock; RUnlock; RLock; RUnlock; WLock; WUnlock; RLock; RUnlock]
+    = [RLock; RUnlock; RLock; RUnlock; WLock; WUnlock; RLock; RUnlock]
+  /\ norm [RLock; RLock; RUnlock; RUnlock] = [RLock; RLock; RUnlock; RUnlock]
+  /\ norm [RLock; RUnlock] = [RLock; RUnlock].
+Proof. repeat split; vm_compute; reflexivity. Qed.
 
 (* when the model says "deadlocks", a deadlocking schedule exists in the transition system *)
 Lemma model_deadlocks_sound p : model_deadlocks p = true ->
